@@ -127,6 +127,25 @@ def handle (op : String) (args : List String) : Option String :=
           cx z ++ " " ++ fl (0.5 * (quadAbsSum nodes (pmIntegrand S ωs ωi) * scale))
         | _, _ => "PANIC")
     | [] => none
+  | "pm_coinc_gl" => do
+    -- `<24 setup> <m> (z apod)*m <m> (weight)*m` : Gauss–Legendre rule supplied by the harness
+    let fs ← (args.take 24).mapM parseFl
+    let (S, ωs, ωi, _) ← setup? fs
+    match args.drop 24 with
+    | m :: rest => do
+      let m ← parseNat m
+      let tab ← table? (m.repr :: rest.take (2 * m))
+      match rest.drop (2 * m) with
+      | m2 :: wts => do
+        let m2 ← parseNat m2
+        let wts ← wts.mapM parseFl
+        if m2 ≠ m ∨ wts.length ≠ m then none else
+        let S := { S with apod := apodOf tab }
+        let nodes := (tab.map Prod.fst).zip wts
+        pure (cx (pmCoincQ S nodes 1.0 ωs ωi) ++ " "
+          ++ fl (0.5 * (quadAbsSum nodes (pmIntegrand S ωs ωi) * 1.0)))
+      | [] => none
+    | [] => none
   | "jsa_raw" => do
     let (J, ωs, ωi, rest) ← jsetup? args
     match rest with
